@@ -66,6 +66,8 @@ def diff_check(ctx, ll, wrapper, defines, entry, args, n, ndebug, hooks=None, ho
     exe = native_exe(ctx, wrapper, defines, sanitize=False, ndebug=ndebug, extra=extra_native)
     r = subprocess.run([exe, 'random', entry, str(ctx.seed), str(n)] + [str(a) for a in args], capture_output=True, text=True, timeout=300)
     lines = [l for l in r.stdout.split('\n') if l.startswith('choices')]
+    ncrash = r.stdout.count('CRASH signal')     # a native abort (assertion / sanitizer) is not an encoder problem: the exploration will find and replay it
+    if not lines and ncrash: return True, 'all %d seeded native runs aborted (left to the exploration to report)' % ncrash
     if not lines: return False, 'native random run produced no output: ' + (r.stdout[-200:] + r.stderr[-200:])
     m = irsym._G.get('m') if irsym._G.get('ll_path') == ll else None
     if m is None:
